@@ -84,6 +84,7 @@ func c13Analyze(nfiles int, makefileBytes int, scripts int) {
 
 func VerifHarness_C13_Analyzer1() { c13Analyze(verifIntRange("n", 0, 1), 4, 1) }
 func VerifHarness_C13_Analyzer2() { c13Analyze(2, 2, 2) }
+
 // three files out of markers of types that have several markers each (duplicates of one type
 // need not be adjacent in the sorted listing)
 func VerifHarness_C13_Analyzer3() {
